@@ -240,10 +240,125 @@ def t_early(fn):
     return None
 
 
+def t_flipcmp(fn):
+    """a <= b -> b >= a ; a == b -> b == a ; a < b -> b > a"""
+    flip = {ast.Lt: ast.Gt, ast.LtE: ast.GtE, ast.Gt: ast.Lt,
+            ast.GtE: ast.LtE, ast.Eq: ast.Eq, ast.NotEq: ast.NotEq}
+    done = False
+    for n in ast.walk(fn):
+        if isinstance(n, ast.Compare) and len(n.ops) == 1 and \
+                type(n.ops[0]) in flip and _simple(n.left) and \
+                _simple(n.comparators[0]):
+            n.left, n.comparators[0] = n.comparators[0], n.left
+            n.ops[0] = flip[type(n.ops[0])]()
+            done = True
+    return fn if done else None
+
+
+def t_splitand(fn):
+    """if a and b: S  (no else)  ->  if a: if b: S"""
+    done = False
+    for n in ast.walk(fn):
+        if isinstance(n, ast.If) and not n.orelse and isinstance(
+                n.test, ast.BoolOp) and isinstance(n.test.op, ast.And) \
+                and len(n.test.values) == 2:
+            a, b = n.test.values
+            inner = ast.If(test=b, body=n.body, orelse=[])
+            n.test = a
+            n.body = [inner]
+            done = True
+    return fn if done else None
+
+
+def t_elif(fn):
+    """elif c: ...  ->  else: if c: ...   (same tree in the ast; this
+    transformation instead nests the trailing else: `if a: A else: B`
+    with B starting by an if stays as is) - here: if a: A; elif b: B  with
+    returns at the end of A  ->  if a: A;  if b: B"""
+    done = False
+    for blk_owner in ast.walk(fn):
+        for f in ('body', 'orelse'):
+            blk = getattr(blk_owner, f, None)
+            if not isinstance(blk, list):
+                continue
+            for i, st in enumerate(list(blk)):
+                if isinstance(st, ast.If) and st.orelse and not \
+                        _falls_through(st.body) and isinstance(
+                            st, ast.If):
+                    rest = st.orelse
+                    st.orelse = []
+                    j = blk.index(st)
+                    blk[j + 1:j + 1] = rest
+                    done = True
+    return fn if done else None
+
+
+def t_retvar(fn):
+    """return <expr>  ->  result_value = <expr>; return result_value"""
+    done = False
+    allnames = {n.id for n in ast.walk(fn) if isinstance(n, ast.Name)}
+    nm = 'result_value'
+    while nm in allnames:
+        nm += '_'
+    for blk_owner in ast.walk(fn):
+        if isinstance(blk_owner, (ast.Lambda,)):
+            continue
+        for f in ('body', 'orelse', 'finalbody'):
+            blk = getattr(blk_owner, f, None)
+            if not isinstance(blk, list):
+                continue
+            for st in list(blk):
+                if isinstance(st, ast.Return) and st.value is not None \
+                        and not _simple(st.value):
+                    j = blk.index(st)
+                    blk[j:j + 1] = [
+                        ast.Assign(targets=[ast.Name(id=nm,
+                                                     ctx=ast.Store())],
+                                   value=st.value),
+                        ast.Return(value=ast.Name(id=nm, ctx=ast.Load()))]
+                    done = True
+    return fn if done else None
+
+
+def t_aug(fn):
+    """x = x + e  <->  x += e   for plain names bound to numbers is not
+    decidable here; only  x += e -> x = x + e  for names that are never
+    used as containers (no method call, subscript or iteration on x)"""
+    done = False
+    cont = set()
+    for n in ast.walk(fn):
+        if isinstance(n, (ast.Attribute, ast.Subscript)) and isinstance(
+                n.value, ast.Name):
+            cont.add(n.value.id)
+        if isinstance(n, (ast.For, ast.comprehension)) and isinstance(
+                n.iter, ast.Name):
+            cont.add(n.iter.id)
+    for blk_owner in ast.walk(fn):
+        for f in ('body', 'orelse', 'finalbody'):
+            blk = getattr(blk_owner, f, None)
+            if not isinstance(blk, list):
+                continue
+            for st in list(blk):
+                if isinstance(st, ast.AugAssign) and isinstance(
+                        st.target, ast.Name) and st.target.id not in cont \
+                        and isinstance(st.op, (ast.Add, ast.Sub)) and not \
+                        isinstance(st.value, (ast.List, ast.ListComp,
+                                              ast.Tuple)):
+                    j = blk.index(st)
+                    blk[j] = ast.Assign(
+                        targets=[ast.Name(id=st.target.id, ctx=ast.Store())],
+                        value=ast.BinOp(left=ast.Name(id=st.target.id,
+                                                      ctx=ast.Load()),
+                                        op=st.op, right=st.value))
+                    done = True
+    return fn if done else None
+
+
 TRANSFORMS = {
     'rename': t_rename, 'suffix': t_suffix, 'swapif': t_swapif,
     'items': t_items, 'temps': t_temps, 'kwargs': t_kwargs,
-    'early': t_early,
+    'early': t_early, 'flipcmp': t_flipcmp, 'splitand': t_splitand,
+    'elif': t_elif, 'retvar': t_retvar, 'aug': t_aug,
 }
 
 
